@@ -449,7 +449,8 @@ def check (c):
         else:
             from pmv.oracles import report
             rep = report.parse (rf ['out'])
-            six = lambda got, want: abs (got - want) <= 6e-6 * abs (want) + 1e-12
+            # six digits in the option file; the report shows numbers below 0.1 with six decimals
+            six = lambda got, want: abs (got - want) <= max (6e-6 * abs (want), 1.1e-6)
             th  = instrument.exact_grid (*zen)
             ph  = instrument.exact_grid (*azi)
             want = [(t, q) for q in ph for t in th]
